@@ -427,7 +427,7 @@ func c16Sim(r *simcore.Run) {
 				}
 				w.reason = "torn-at-boundary"
 			case 3: // unsupported content replaces the file, then the valid version
-				bad := simcore.Pick(s, []string{"rsa1024", "ed25519", "garbage", "cert-only", "empty", "no-digsig", "rsa1024-later-entry", "encrypted-truncated-ciphertext", "encrypted-short-iv"}, "bad-content")
+				bad := simcore.Pick(s, []string{"rsa1024", "rsa2560", "rsa3584", "ed25519", "garbage", "cert-only", "empty", "no-digsig", "rsa1024-later-entry", "encrypted-truncated-ciphertext", "encrypted-short-iv"}, "bad-content")
 				w.reason = "invalid:" + bad
 				w.torn = []int{-1}
 				switch bad {
